@@ -164,39 +164,53 @@ def make_multinomial(n, size_mode):
         ns = _samples(ctx, n)
         arr = np.array(lw, dtype=object if ctx.mode == "sym" else float)
         req = None if size_mode == "default" else 1 + ctx.choice("size", 4)
-        rec = {}
+        recs = []
 
         def choice(a, size=None, replace=True, p=None):
-            rec.update(a=a, size=size, replace=replace, p=p)
+            # numpy's contract: integers in range(a), drawn with the probabilities p; here: a fixed cycle through range(a)
+            a_n = int(a) if isinstance(a, (int, np.integer)) else len(a)
+            recs.append(dict(a=a, a_n=a_n, size=size, replace=replace, p=p))
             k = int(size)
-            return np.array([(3 * j + 1) % n for j in range(k)], dtype=int)
-        if ctx.mode == "sym":
-            _symnp.symrandom.reset()
-            _symnp.symrandom.handlers["choice"] = choice
-            try:
-                out, idx = posterior.draw_posterior_samples(ns, log_w=arr, method="multinomial_resampling", n=req, return_indices=True)
-            finally:
+            return np.array([(3 * j + 1) % a_n for j in range(k)], dtype=int) if len(recs) == 1 else np.array([j % a_n for j in range(k)], dtype=int)
+
+        def call(nreq):
+            if ctx.mode == "sym":
                 _symnp.symrandom.reset()
-        else:
+                _symnp.symrandom.handlers["choice"] = choice
+                try:
+                    return posterior.draw_posterior_samples(ns, log_w=arr.copy(), method="multinomial_resampling", n=nreq, return_indices=True)
+                finally:
+                    _symnp.symrandom.reset()
             real = np.random.choice
             np.random.choice = choice
             try:
-                out, idx = posterior.draw_posterior_samples(ns, log_w=arr, method="multinomial_resampling", n=req, return_indices=True)
+                return posterior.draw_posterior_samples(ns, log_w=arr.copy(), method="multinomial_resampling", n=nreq, return_indices=True)
             finally:
                 np.random.choice = real
+        out, idx = call(req)
+        rec = recs[0]
+        # second call with n draws cycling through every outcome of the generator: which nested sample does outcome j stand for?
+        out2, idx2 = call(n)
+        rec2 = recs[1]
         w = [snp.exp(x) for x in lw]
         tot = w[0]
         for x in w[1:]:
             tot = tot + x
-        ctx.prove(rec.get("a") == n and rec.get("replace") is True, "draws are made with replacement from all nested samples")
+        ctx.prove(rec.get("replace") is True and rec["a_n"] <= n and rec2["a_n"] == rec["a_n"], "draws are made with replacement")
         p = rec["p"]
-        ctx.prove(len(p) == n, "one probability per nested sample")
+        a_n = rec["a_n"]
+        ctx.prove(len(p) == a_n, "one probability per outcome of the generator")
+        stands_for = [int(out2["tag"][j]) for j in range(a_n)]
         for i in range(n):
             ref = w[i] if mut != "p" else w[i] * w[i]
+            pi = 0
+            for j in range(a_n):
+                if stands_for[j] == i:
+                    pi = pi + p[j]
             if ctx.mode == "sym":
-                ctx.prove(p[i] * tot == ref, "selection probability of sample i is w_i / sum w")
+                ctx.prove(pi * tot == ref, "selection probability of sample i is w_i / sum w")
             else:
-                ctx.prove_eq(p[i] * tot, ref, "selection probability of sample i is w_i / sum w")
+                ctx.prove_eq(pi * tot, ref, "selection probability of sample i is w_i / sum w")
         sq = w[0] * w[0]
         for x in w[1:]:
             sq = sq + x * x
@@ -210,7 +224,8 @@ def make_multinomial(n, size_mode):
             else:
                 ess = tot * tot / sq
                 ctx.prove(k == int(ess) or abs(ess - round(ess)) < 1e-9, "default number of draws is the integer part of the effective sample size")
-        ctx.prove(len(out) == k and [int(t) for t in out["tag"]] == [int(i) for i in idx], "posterior samples are the nested samples at the drawn indices")
+        ctx.prove(len(out) == k and [int(t) for t in out["tag"]] == [int(i) for i in idx], "posterior samples are the nested samples at the returned indices")
+        ctx.prove([int(t) for t in out2["tag"]] == [int(i) for i in idx2], "posterior samples are the nested samples at the returned indices")
         ctx.cover("end")
     return body
 
